@@ -21,9 +21,9 @@ CONSTANTS
   LongVals = {TRUE, FALSE}
   AllowSlow = TRUE
   DEV_NewaccNoAuth = TRUE
-  DEV_ServeUnfinished = TRUE
-  DEV_SniffPadded = TRUE
-  DEV_FinishFailLeavesBytes = TRUE
+  DEV_ServeUnfinished = FALSE
+  DEV_SniffPadded = FALSE
+  DEV_FinishFailLeavesBytes = FALSE
 INIT HInit
 NEXT HNext
 INVARIANT Emit
